@@ -14,7 +14,7 @@ CONSTANTS Tasks, Stride, Seed, DoDump
 VARIABLES pc, task, first, res
 vars == <<pc, task, first, res>>
 
-VHash(v) == 100003 + Dot(v, SubSeq(<<1, 5, 7, 11, 13, 17, 19, 23, 29, 31, 37, 41>>, 1, Len(v)))
+VHash(v) == 100003 + DotFrom(v, [i \in 1..Len(v) |-> 7 * i * i + 3 * i + 1], 1)
 Keep(v, s) == VHash(v) % s = Seed % s
 
 G2 == {<<x, y>> : x \in 0..2, y \in 0..2}
